@@ -690,9 +690,10 @@ func newCheckSolver(o checkOpts, tb *TB) (*Solver, error) {
 }
 
 func crossEvidence(o checkOpts) map[string]any {
+	fb := map[string]any{"solver": "cvc5", "asked_after_primary_unknown": fallbackAsked, "decided": fallbackDecided}
 	if o.cross == "" {
-		return map[string]any{"enabled": false}
+		return map[string]any{"enabled": false, "fallback_on_unknown": fb}
 	}
-	return map[string]any{"enabled": true, "second_solver": o.cross, "every_nth_definite_verdict": o.crossEvery,
+	return map[string]any{"enabled": true, "fallback_on_unknown": fb, "second_solver": o.cross, "every_nth_definite_verdict": o.crossEvery,
 		"compared": crossCompared, "agreed": crossAgreed, "disagreed": crossDisagreed, "second_solver_unknown": crossSecondUnknown}
 }
